@@ -108,6 +108,18 @@ func (s *c09Sys) Apply(c *mc.Ctx, i int) {
 		if !strict && s.res[q] >= s.pol.limit+s.maxN {
 			c.Failf("period-over-limit-N", "%s: period %d has %d permits released, limit %d, largest request %d", s.pol, q, s.res[q], s.pol.limit, s.maxN)
 		}
+		if s.pol.timeout == 0 {
+			// timeout 0 (the MQTT byte limiter): what a large request took beyond the period's budget is owed by
+			// the following periods: over any k consecutive periods ending now, the admitted permits stay
+			// below k*limit + the largest request (for k = 1 this is the per-period clause of the statement)
+			sum := 0
+			for k := 1; q-k+1 >= 0; k++ {
+				sum += s.res[q-k+1]
+				if sum >= k*s.pol.limit+s.maxN {
+					c.Failf("window-over-limit-N", "%s: periods %d..%d admitted %d permits, limit %d per period, largest request %d", s.pol, q-k+1, q, sum, s.pol.limit, s.maxN)
+				}
+			}
+		}
 		if w == 0 {
 			c.AddOutcome("admit-now")
 		} else {
@@ -145,6 +157,17 @@ func (s *c09Sys) Canon() string {
 		fmt.Fprintf(&b, "%d:%d,", q-cyc, s.res[q])
 	}
 	fmt.Fprintf(&b, " maxN=%d", s.maxN)
+	if s.pol.timeout == 0 && s.pol.withN {
+		// what the window clause still remembers of the past: the largest excess of any run of periods ending now
+		sum, owed := 0, 0
+		for k := 1; cyc-k+1 >= 0; k++ {
+			sum += s.res[cyc-k+1]
+			if d := sum - k*s.pol.limit; d > owed {
+				owed = d
+			}
+		}
+		fmt.Fprintf(&b, " owed=%d", owed)
+	}
 	return b.String()
 }
 
@@ -243,6 +266,8 @@ func TestVerifC09(t *testing.T) {
 		}
 		polN := c09Pol{limit, c09P, true}
 		jobs = append(jobs, mc.BFSJob(mc.BFSOptions{Job: "bfs/" + polN.String(), MaxDepth: depthN}, func() mc.Sys { return newC09Sys(polN) }))
+		polN0 := c09Pol{limit, 0, true}
+		jobs = append(jobs, mc.BFSJob(mc.BFSOptions{Job: "bfs/" + polN0.String(), MaxDepth: depthN}, func() mc.Sys { return newC09Sys(polN0) }))
 	}
 	jobs = append(jobs, mc.BFSJob(mc.BFSOptions{Job: "bfs/multi-req2-bytes10", MaxDepth: depthM}, func() mc.Sys { return newC09Multi() }))
 	mc.RunJobs("C09", jobs)
